@@ -337,6 +337,52 @@ fn in_port(emu: &mut Emu, port: u16) -> u8 {
     v
 }
 
+/// "every RAM page as seen by ... the display": the CPU is parked in a DI / JR $ loop outside the screen for two
+/// frames (nothing writes memory), the canvas is sampled at random pixels, then CPU and the two code bytes are restored.
+/// `avoid`: display-file offsets the loader itself legitimately changed (48K SNA: PC left on the stack)
+fn display_sample(emu: &mut Emu, r: &mut Rng, avoid: &[usize]) -> Vec<Value> {
+    let (a, b) = (emu.peek(0x8000), emu.peek(0x8001));
+    poke_bytes(emu, 0x8000, &[0x18, 0xFE]);
+    let saved = {
+        let c = emu.verif_cpu();
+        (c.regs.get_pc(), c.regs.get_r(), c.halted, c.skip_interrupt, c.regs.get_iff1(), c.regs.get_mem_ptr(), c.regs.verif_q())
+    };
+    {
+        let c = emu.verif_cpu();
+        c.regs.set_pc(0x8000);
+        c.regs.set_iff1(false);
+        c.halted = false;
+        c.skip_interrupt = false;
+    }
+    emu.set_debug_interface(VDebug::Never);
+    emu.set_speed(rustzx_core::EmulationMode::FrameCount(1));
+    for _ in 0..2 {
+        let _ = emu.emulate_frames(std::time::Duration::from_secs(100));
+    }
+    while emu.next_audio_sample().is_some() {}
+    let px = emu.screen_buffer().px.clone();
+    let mut v = vec![];
+    while v.len() < 32 {
+        let (x, y) = (r.below(256) as usize, r.below(192) as usize);
+        let bo = ((y / 64) * 2048) + ((y % 8) * 256) + (((y / 8) % 8) * 32) + x / 8;
+        let ao = 6144 + (y / 8) * 32 + x / 8;
+        if avoid.contains(&bo) || avoid.contains(&ao) {
+            continue;
+        }
+        v.push(json!([x, y, px[y * 256 + x]]));
+    }
+    poke_bytes(emu, 0x8000, &[a, b]);
+    let c = emu.verif_cpu();
+    c.regs.set_pc(saved.0);
+    c.regs.set_r(saved.1);
+    c.halted = saved.2;
+    c.skip_interrupt = saved.3;
+    c.regs.set_iff1(saved.4);
+    c.regs.set_mem_ptr(saved.5);
+    c.regs.verif_set_q(saved.6);
+    v
+}
+
 /// C14: independently written files loaded into emulators of either model
 fn fileloads(out: &mut Out, r: &mut Rng, count: u64) {
     for i in 0..count {
@@ -441,6 +487,16 @@ fn fileloads(out: &mut Out, r: &mut Rng, count: u64) {
                     }
                     ev["state"] = st;
                     ev["ram_diff"] = json!(ram_diff(&rx, m_file, &want));
+                    let mut avoid = vec![];
+                    if is_sna && !m_file {
+                        for k in 0..2u16 {
+                            let a = d.cpu.sp.wrapping_sub(2).wrapping_add(k);
+                            if (0x4000..0x5B00).contains(&a) {
+                                avoid.push((a - 0x4000) as usize);
+                            }
+                        }
+                    }
+                    ev["pix"] = json!(display_sample(&mut rx, r, &avoid));
                     if !is_sna {
                         ev["ay_readback"] = json!(ay_readback(&mut rx));
                         rx.send_mouse_pos_diff(5, 0);
